@@ -908,6 +908,12 @@ def check_cli(ctx, drv, case, pats, origin):
                 os.unlink(lp)
             return rc, norm(out, d), norm(err, d), norm(log, d)
 
+        def same(x, y):
+            """exit status and standard output byte for byte; the log as a multiset of lines (the order in which files are
+            parsed, hence in which their warnings are logged, follows set iteration and is not a result the property lists);
+            standard error is not compared (progress / library notices)"""
+            return x[0] == y[0] and x[1] == y[1] and sorted(x[3].splitlines()) == sorted(y[3].splitlines())
+
         ctx.count(key="cli_case")
         # ---- codebasin
         a = run("codebasin", ["-R", "summary", "-R", "duplicates"] + xargs(pats) + ["analysis.toml"])
@@ -916,9 +922,9 @@ def check_cli(ctx, drv, case, pats, origin):
         rep["codebasin"] = {"-x": a[:2], "toml": b[:2], "mixed": m[:2]}
         if a[0] != 0:
             ctx.violation(f"codebasin -x {pats} fails: {a[1][-300:]} {a[2][-300:]}", c)
-        if a != b:
+        if not same(a, b):
             ctx.violation(f"codebasin: -x {pats} and [codebase] exclude = {pats} give different output/log", c)
-        if a != m:
+        if not same(a, m):
             ctx.violation(f"codebasin: -x {first} with [codebase] exclude = {second} differs from -x {pats}", c)
         rows, total, _ = G.parse_summary(a[1])
         got = {k: v[0] for k, v in rows.items()}
@@ -931,9 +937,9 @@ def check_cli(ctx, drv, case, pats, origin):
         rep["tree"] = {"-x": ta[:2], "toml": tb[:2]}
         if ta[0] != 0:
             ctx.violation(f"cbi-tree -x {pats} fails: {ta[1][-300:]} {ta[2][-300:]}", c)
-        if ta != tb:
+        if not same(ta, tb):
             ctx.violation(f"cbi-tree: -x {pats} and [codebase] exclude = {pats} give different output/log", c)
-        if ta != tm:
+        if not same(ta, tm):
             ctx.violation(f"cbi-tree: -x {first} with [codebase] exclude = {second} differs from -x {pats}", c)
         trows = G.parse_tree(ta[1])
         tnames = sorted(r[6] for r in trows if not r[5])
